@@ -41,6 +41,11 @@ func (*inArray) Exit(node *Node) {
 					}
 
 				string:
+					if t := n.Left.Type(); t == nil || t.Kind() != reflect.String {
+						// Same restriction as for ints: a map lookup needs
+						// a key of exactly the map's key type.
+						return
+					}
 					for _, a := range array.Nodes {
 						if _, ok := a.(*StringNode); !ok {
 							return
